@@ -199,9 +199,11 @@ def c18_minimal_medium_mip(E, sym=("EX_A_e", "EX_B_e")):
             lp.lb[rid], lp.ub[rid] = -n, n
     lp.add_row("growth", {"DM_C": 1}, g, None)
     suff = exists_point(E, lp, "oracle_sufficient_medium_exists", tag="oracle_any")
+    ncmp = E.pick("minimize_components", [True, 3])       # 3: up to three alternative media (more than exist on T5)
+    E.note(minimize_components=str(ncmp))
     before = observe(m)
     start = len(E.solve_log)
-    med = minimal_medium(m, min_objective_value=g, minimize_components=True, open_exchanges=oe)
+    med = minimal_medium(m, min_objective_value=g, minimize_components=ncmp, open_exchanges=oe)
     same(E, before, observe(m), "model-unchanged", what="minimal_medium(minimize_components)")
     if not suff:
         E.prove(med is None, "None-iff-no-medium-suffices", oracle="infeasible")
@@ -209,42 +211,45 @@ def c18_minimal_medium_mip(E, sym=("EX_A_e", "EX_B_e")):
     E.prove(med is not None, "None-iff-no-medium-suffices", oracle="feasible")
     if med is None:
         return
-    E.prove(set(med.index) <= set(EXCH), "medium-lists-exchanges-only", got=list(med.index))
-    E.prove(E.all_of([lift(med[k]) > 0 for k in med.index]), "imports-positive")
-    ncomp = len([k for k in med.index if k in EXCH])
-    # minimal number of components: no sufficient distribution imports through fewer exchanges
-    w = lp.fresh_point(E, "fewer")
-    cnt = rv(0)
-    for rid, kind in EXCH.items():
-        imp = -w[rid] if kind == "reactant" else w[rid]
-        cnt = cnt + z3.If(imp > 0, rv(1), rv(0))
-    E.prove(z3.Not(z3.And(lp.feasible(w), cnt < rv(ncomp))), "number-of-components-minimal", components=ncomp)
-    # sufficiency with the returned imports as the medium
-    lp2 = fba_lp(m, tag="suffm")
-    for rid, kind in EXCH.items():
-        n = None
-        if oe is not False:
-            n = 1000 if oe is True else oe
-        val = med[rid] if rid in med.index else 0
-        val = val + DROP
-        if kind == "reactant":
-            lp2.lb[rid] = -val
-            if n is not None:
-                lp2.ub[rid] = n
-        else:
-            lp2.ub[rid] = val
-            if n is not None:
-                lp2.lb[rid] = -n
-    w2 = lp2.fresh_point(E, "suffm")
-    wit = None
-    if E.symbolic:
-        recs = [r for r in E.solve_log[start:] if r.get("status") == "optimal"]
-        if recs:
-            rec = recs[-1]
-            wit = {w2[r.id]: rec["x"][r.id] - rec["x"][r.reverse_id] for r in m.reactions}
-    E.prove_exists(list(w2.values()), z3.And(lp2.feasible(w2, slack=(0 if E.symbolic else 1e-6)),
-                                             w2["DM_C"] >= lift(g) - (rv(E.tol) if not E.symbolic else 0)),
-                   "medium-is-sufficient", witness=wit)
+    import pandas as pd
+    media = [med] if isinstance(med, pd.Series) else [med[c] for c in med.columns]
+    E.prove(1 <= len(media) <= (1 if ncmp is True else ncmp), "number-of-alternative-media", got=len(media))
+    seen = []
+    for j, one in enumerate(media):
+        comp = sorted(k for k in one.index if k in EXCH and bool(one[k] > 0))
+        E.prove(set(one.index) <= set(EXCH), "medium-lists-exchanges-only", got=list(one.index))
+        if isinstance(med, pd.Series):
+            E.prove(E.all_of([lift(one[k]) > 0 for k in one.index]), "imports-positive")
+        E.prove(comp not in seen, "alternative-media-differ", got=comp)
+        seen.append(comp)
+        ncomp = len(comp)
+        # minimal number of components: no sufficient distribution imports through fewer exchanges
+        w = lp.fresh_point(E, "fewer%d" % j)
+        cnt = rv(0)
+        for rid, kind in EXCH.items():
+            imp = -w[rid] if kind == "reactant" else w[rid]
+            cnt = cnt + z3.If(imp > 0, rv(1), rv(0))
+        E.prove(z3.Not(z3.And(lp.feasible(w), cnt < rv(ncomp))), "number-of-components-minimal", components=ncomp, medium=j)
+        # sufficiency with the returned imports as the medium
+        lp2 = fba_lp(m, tag="suffm%d" % j)
+        for rid, kind in EXCH.items():
+            n = None
+            if oe is not False:
+                n = 1000 if oe is True else oe
+            val = one[rid] if rid in one.index else 0
+            val = val + DROP
+            if kind == "reactant":
+                lp2.lb[rid] = -val
+                if n is not None:
+                    lp2.ub[rid] = n
+            else:
+                lp2.ub[rid] = val
+                if n is not None:
+                    lp2.lb[rid] = -n
+        w2 = lp2.fresh_point(E, "suffm%d" % j)
+        E.prove_exists(list(w2.values()), z3.And(lp2.feasible(w2, slack=(0 if E.symbolic else 1e-6)),
+                                                 w2["DM_C"] >= lift(g) - (rv(E.tol) if not E.symbolic else 0)),
+                       "medium-is-sufficient", medium=j)
 
 
 def c18_minimal_medium_wide(E):
